@@ -72,7 +72,8 @@ PLAN = dict(
                "into FileWriter+FileReader, StreamWriter+StreamReader, StreamEncoder+StreamDecoder and FlightDataEncoder+decoder with the "
                "predicted outcomes, dictionary messages and resolved values; recorded sessions of the real writers over the whole type "
                "zoo (sliced / re-laid-out inputs, empty and zero-column batches, all write options, projections, Flight splitting and "
-               "hydration) are stepped through the same machine by TLC (Trace_IpcRoundTrip.tla), which computes the expected outcome and "
+               "hydration) and over a nesting grid (every type family with its own buffer-slicing code as the child of every container "
+               "kind, written unsliced / with the batch sliced at an odd offset / with the child carrying its own offset / both) are stepped through the same machine by TLC (Trace_IpcRoundTrip.tla), which computes the expected outcome and "
                "message sequence of every write and judges schema, batch count, rows, projection law and alignment / footer layout.",
     level_note="Bounded: MC constants in spec/MC_IpcDict*.cfg (quick: 2 ids x <= 3 writes, one representative per evolution class; thorough: "
                "<= 2 ids x <= 3 writes with the full evolution set, <= 2 ids x <= 4 writes with representatives, 1 id x <= 5 writes over 3 "
@@ -83,7 +84,9 @@ PLAN = dict(
                "value tokens (ArrayData equality in the code). Compression codec fidelity is covered only through the identity law. "
                "Flight: batch boundaries after splitting and dictionary ids are not compared (rows after concatenation, messages after "
                "collapsing runs of record batches); sessions whose schema the Flight encoder cannot hydrate (no cast) are skipped. "
-               "Writers that report a type as unsupported are skipped, not judged.",
+               "Writers that report a type as unsupported are skipped, not judged. Nesting grid: 11 containers x 17 families x 4 slicing modes "
+               "= 744 triples, each in >= 2 sessions per run (DRIVER line nest_triples_in_2_or_more_sessions); pairs that meet a known finding "
+               "on sliced batches (union / run-end below list, large list, map) are kept in sessions of their own.",
     technique="TLA+ state machine (IPC dictionary tracker / reader), TLC model checking, TLC-generated sessions replayed into the code, "
               "TLC trace validation of recorded writer sessions",
     rule="TLC explores every write history of IpcDict.tla within the MC constants and checks " + INV + "; TLC-generated sessions "
